@@ -85,6 +85,31 @@ def tight_pairs(root: Any) -> set:
     return {(id(a), id(b)) for a, b in zip(toks, toks[1:]) if type(a).__name__ not in SELF_DELIMITING and type(b).__name__ not in SELF_DELIMITING}
 
 
+def shown(root: Any) -> list:
+    """What the value-level and filtered views of every model SHOW (tags, links, currencies, custom values, postings, directives, meta): "what the
+    model says" is also what these say - the raw tree can agree with the text while a view with a stale index table reports something else
+    (round 8, seed C06-h)."""
+    from vf.props import c10
+    out = []
+    order = O.Order(root.token_store)
+    for m, _d in O.walk(root, order):
+        if not isinstance(m, base.RawTreeModel):
+            continue
+        for name, _raw, _vis, _conv in c10.views_of(m):
+            try:
+                w = getattr(m, name)
+                if name in ('meta', 'raw_meta'):
+                    items = [(k, repr(O.digest(v)) if isinstance(v, base.RawModel) else repr(v)) for k, v in w.items()]
+                else:
+                    items = [repr(O.digest(x)) if isinstance(x, base.RawModel) else repr(x) for x in w]   # the semantic digest: comment ownership is exempt
+            except ArithmeticError:
+                items = ['<does not evaluate>']
+            except Exception as e:  # noqa: BLE001
+                items = [f'<raised {type(e).__name__}>']
+            out.append((type(m).__name__, name, items))
+    return out
+
+
 def compare(root: Any, what: str, key: str) -> Optional[tuple[str, str]]:
     text = O.print_text(root)
     try:
@@ -108,6 +133,10 @@ def compare(root: Any, what: str, key: str) -> Optional[tuple[str, str]]:
                 f'IGNORED terminal (rest of the line) absorbs on re-parsing ({O.digest_diff(d1, d2)})')
     if d1 != d2:
         return (f'digest:{key}', f'after {what} the model and its re-parsed print differ at {O.digest_diff(d1, d2)}; printed {text!r}')
+    s1, s2 = shown(root), shown(again)
+    if s1 != s2 and len(s1) == len(s2):
+        x, y = next((x, y) for x, y in zip(s1, s2) if x != y)
+        return (f'view-shows:{x[0]}.{x[1]}', f'after {what}: {x[0]}.{x[1]} of the edited model shows {x[2]!r}, the same model of the re-parsed print shows {y[2]!r}; printed {text!r}')
     c1, c2 = O.comment_lines(root), O.comment_lines(again)
     if c1 != c2:
         return (f'comments:{key}', f'after {what}: block comment lines {c1!r} re-parse as {c2!r}; printed {text!r}')
@@ -132,6 +161,10 @@ def run_case(case: dict) -> Result:
     classes = set()
     nontrivial = False
     pinned = bool(case.get('pinned'))
+    if case.get('prime'):
+        from vf.props import c10
+        c10.prime(root)   # the views exist before the edits: their index tables have to follow every splice
+        classes.add('primed')
     for op in case['ops']:
         if not pinned and (tight_number_comma_number(root) or ignored_before_blanks(root)):
             classes.add('excluded-lexical-adjacency')   # open findings, pinned in corpus/C06
@@ -206,7 +239,8 @@ def _build(tier: str):
     n = 8 if tier == 'quick' else 20
 
     def build(rnd: Any) -> dict:
-        return OPS.build_program(rnd, cfg, FAMILIES, n, common.parse_file, stick=0.5)
+        from vf.props import c10
+        return OPS.build_program(rnd, cfg, FAMILIES, n, common.parse_file, stick=0.5, prime=c10.prime)
     return build
 
 
